@@ -252,7 +252,7 @@ def choose_op(rng, snap):
         return "u"
     if x < 0.28:
         return "s"
-    kind = "c" if rng.random() < 0.2 else "r"
+    kind = "c" if rng.random() < 0.12 else "r"
     mode = rng.random()
     if mode < 0.55 and hidden_good:
         ids = rng.sample(hidden_good, rng.randint(1, min(3, len(hidden_good))))
@@ -347,7 +347,7 @@ def judge_reveal(res, case, before, ids, after, exc, via):
     return newly
 
 
-def run_history(case, tmp, res, rng=None, n_steps=0, meta_p=0.3):
+def run_history(case, tmp, res, rng=None, n_steps=0, meta_p=0.5):
     """execute a history on the real code, judging every stage.  With `rng` the steps are chosen while running and
     appended to case['ops']; otherwise case['ops'] is replayed.  Returns (impl trace, info)."""
     from batchie.cli import reveal_plate
@@ -391,9 +391,11 @@ def run_history(case, tmp, res, rng=None, n_steps=0, meta_p=0.3):
         exc = None
         new = None
         stages = []
-        want_meta = kind in "rc" or (attempts == n_steps if rng is not None else k == len(ops) - 1) or (
-            (rng.random() if rng is not None else 0.0) < meta_p)
-        if kind in "rc" and meta is None:
+        if rng is None:
+            want_meta = True
+        else:
+            want_meta = attempts == n_steps or rng.random() < (meta_p if kind in "rc" else meta_p / 3)
+        if kind in "rc" and want_meta and meta is None:
             try:
                 meta = metadata(cur, tmp)
                 check_meta(res, at(k - 1), cur, snap, meta)
@@ -728,6 +730,12 @@ def run_setobs_case(case, res):
                 res.fail("set_observed changes something other than observations and mask", case, {"field": f, "after": after[f]},
                          {"field": f, "before": before[f]}, signature=SIG_SETOBS)
                 break
+        # set_observed may leave plates partly observed: such a plate counts as unobserved
+        un, ob = unobserved_counts(s)
+        want_un = n_unobserved(after)
+        if (un, ob) != (want_un, len(set(after["plate_names"])) - want_un):
+            res.fail("in-memory plate counters differ from a recount of the screen", case, [un, ob],
+                     [want_un, len(set(after["plate_names"])) - want_un], signature=SIG_META)
     return out
 
 
@@ -854,6 +862,6 @@ def replay(ctx, case, res):
     try:
         c = dict(case)
         c["ops"] = list(case.get("ops", []))
-        run_history(c, tmp, res, meta_p=1.0)
+        run_history(c, tmp, res)
     finally:
         shutil.rmtree(tmp, ignore_errors=True)
